@@ -133,7 +133,16 @@ fn gen_term(r: &mut Rng) -> E {
         0 => E::Bin("mul", b(gen_int_atom(r)), b(gen_int_atom(r))),
         1 => E::Bin("floorDiv", b(gen_int_atom(r)), b(gen_int_atom(r))),
         2 => E::Bin("mod", b(gen_int_atom(r)), b(gen_int_atom(r))),
-        3 => E::Bin("pow", b(E::Ref("N")), b(E::Int(r.range(0, 4)))),
+        // exponents of every syntactic kind: literal, negated literal, const name (whatever its value), negated const
+        3 => {
+            let base = if r.chance(1, 2) { E::Ref("N") } else { E::Int(r.range(0, 4)) };
+            let exp = match r.below(7) {
+                0 => E::Ref("N"), 1 => E::Ref("M"), 2 => E::Ref("Z"), 3 => E::Neg(b(E::Ref("M"))),
+                4 => E::Neg(b(E::Int(r.range(0, 3)))),
+                _ => E::Int(r.range(0, 4)),
+            };
+            E::Bin("pow", b(base), b(exp))
+        }
         _ => gen_int_atom(r),
     }
 }
